@@ -5,7 +5,7 @@ for d in "$@"; do d=$(realpath $d)
   S=/var/tmp/rf.$$; V=/var/tmp/rfv.$$; rm -rf $S $V; mkdir -p $V
   rsync -a --exclude .git /repo/ $S/; cp /verif/known_findings.json /verif/properties.jsonl $V/
   if ! (cd $S && patch -p1 -s < $d/patch.diff) ; then echo "== $d: PATCH FAILED"; rm -rf $S $V; continue; fi
-  out=$(VERIF_REPO=$S VERIF_DIR=$V /verif/bin/verifcheck all --tier quick 2>&1)
+  out=$(VERIF_REPO=$S VERIF_DIR=$V ${VERIFCHECK:-/verif/bin/verifcheck} all --tier quick 2>&1)
   n=$(echo "$out" | grep -c "^VIOLATION")
   if [ "$n" = 0 ]; then echo "== $d: silent ($(jq -r .title $d/meta.json 2>/dev/null | cut -c1-70))"; else echo "== $d: FALSE ALARM in $(echo "$out" | grep "^VIOLATION" | sed 's/.*property=\(C[0-9]*\).*/\1/' | tr '\n' ' ') ($(jq -r .title $d/meta.json 2>/dev/null | cut -c1-70))"; echo "$out" | grep -E "^  (VIOLATED|UNDECIDED|ANALYSIS)" | cut -c1-${CUT:-260} | head -${HEAD:-6}; fi
   rm -rf $S $V
